@@ -193,6 +193,37 @@ fn run_decode_case(w: &mut W, rng: &mut Rng, version: u16, n: usize, st: &mut Fi
     if w.rep.samples.len() < 2 && n > 0 && n < 3 {
         w.rep.sample(json!({"version": version, "count": n, "replay": sut.replay_json()}));
     }
+    // confusable framing: header words and record words that all read like the count / the version
+    // number, followed by tails of lengths that would make a mis-framed read "add up" (2, 4, one or
+    // two records +- 2): the packet still starts at byte 0 and its count is the word at offset 2
+    {
+        let rl = if version == 5 { 48usize } else { 52 };
+        let mut p = gen_case(rng, version, n);
+        let words = [n as u16, version, (n as u16).wrapping_add(1), version.wrapping_add(1)];
+        for i in (4..24).step_by(2) {
+            p.header[i..i + 2].copy_from_slice(&words[rng.usize(4)].to_be_bytes());
+        }
+        let cw = p.wire();
+        for tl in [2usize, 4, rl - 2, rl, rl + 2, 2 * rl + 2] {
+            let mut b = cw.clone();
+            b.extend(rng.bytes(tl));
+            if b.len() > 65535 {
+                continue;
+            }
+            let mut s4 = Sut::new(1);
+            let r = s4.parse(0, &b);
+            w.rep.count("confusable_framing_cases", 1);
+            let v = match r.first() {
+                None => Err(div("fixed", "missing", "no element returned for a complete packet".into())),
+                Some(e) => check_fixed(&b, e, st).and_then(|len| if len == cw.len() { Ok(()) } else { Err(div("fixed", "length", format!("consumed {} want {}", len, cw.len()))) }),
+            };
+            if let Err(mut d) = v {
+                d.unit = format!("confusable/{}", d.unit);
+                w.rep.violation(sig("C03", &d), &d, s4.replay_json());
+                return;
+            }
+        }
+    }
     // shorter buffers: an error, never a packet with fewer or invented records
     if do_cuts && n <= 3 {
         // every prefix on ONE parser (V5/V7 decoding is stateless: whatever an error path leaves
